@@ -202,7 +202,8 @@ def main(chk: core.Check) -> int:
         g4 = gen.gen_geompy()
         if not g4["ok"]:
             chk.obligation_broken("translator", "translate the table getters / loaders / accessor wiring of geometry/mdc.py, emc.py into Gen/GeomPy.lean", g4["error"])
-        chk.prove(modules=["C09", "C09b", "GeomTie"])
+        _entry = ["EntryTie"] if core.regen_entry(chk) else []
+        chk.prove(modules=["C09", "C09b", "GeomTie"] + _entry)
         try:
             diffs = c08.correspond(chk, g["info"], thorough)
             chk.coverage["traces_validated_against_impl"] = chk.evals
